@@ -14,7 +14,7 @@ BUILTINS = {'len', 'ord', 'chr', 'int', 'float', 'str', 'callable', 'isinstance'
             'IndexError', 'ValueError', 'TypeError', 'KeyError'}
 SPEC_FORMS = {'old', 'forall', 'exists', 'implies', 'holds', 'fresh', 'iff', 'ite', 'kind_is',
               'same_str', 'allocated', 'unchanged', 'owned', 'chars_hold', 'numshape',
-              'has', 'at', 'mget', 'forall_keys', 'same', 'total_len', 'int_str', 'uf_real'}
+              'has', 'at', 'mget', 'forall_keys', 'same', 'total_len', 'int_str', 'uf_real', 'keyis'}
 
 LIST_MUTATORS = {'append', 'pop', 'clear', 'insert', 'extend', 'sort', 'reverse', 'remove'}
 
@@ -264,7 +264,17 @@ class Exec(Engine):
             return [(st, self.new_map(st))]
         T = getattr(node, '_pyvc_rec', None)
         if T is None:
-            raise Unsupported('dict literal without a declared record type (contract.locals)', node)
+            # an undeclared dict literal: a general map
+            if any(k is None for k in node.keys):
+                raise Unsupported('dict literal with ** unpacking', node)
+            res = []
+            for s, vs in self.ev_list(list(node.keys) + list(node.values), st):
+                n = len(node.keys)
+                m = self.new_map(s)
+                for k, v in zip(vs[:n], vs[n:]):
+                    self.map_store(s, m, k, v, node)
+                res.append((s, m))
+            return res
         keys = []
         for k in node.keys:
             if not (isinstance(k, ast.Constant) and isinstance(k.value, str)):
